@@ -130,6 +130,10 @@ def run_case(case):
         deps, producers, unresolved = model.dependency_relation(mts)
         for s in case["dag"]["sources"]:
             proj.set_file(s, 0)
+        # a missing source may be "present" as a dangling symbolic link: still missing
+        for i, mname in enumerate(case["missing"]):
+            if (case["shape_seed"] + i) % 3 == 0:
+                os.symlink(os.path.join(proj.base, "nowhere", mname), proj.path(mname))
         # some intermediate outputs exist already
         kinds = model.validate(mts, lambda p: os.path.exists(p))
         first = variant[0]["name"]
